@@ -698,6 +698,19 @@ def analyse(a, res):
         prim = [s for s in spans if s.get("is_primary")]
         pline = prim[0]["line_start"] if prim else None
         if k == "frontend":
+            # a compile error INSIDE a proof hint (e.g. the hint names a local that is not in scope any more because the
+            # code around its anchor changed) is a broken hint, not a broken extraction: reported as a droppable hint failure
+            hint = None
+            if pline is not None:
+                for h in a.lookup(pline):
+                    if h[3] == "at":
+                        hint = h
+                        break
+            if hint is not None:
+                failures.append({"message": d.get("message"), "line": pline, "owner": hint[2], "owner_kind": "unit", "clause_unit": hint[2],
+                                 "clause_kind": "at", "clause": hint[4], "props": hint[5], "rendered": d.get("rendered", "")[:3000],
+                                 "obligation": "%s/hint at %s" % (hint[2], hint[4]), "frontend_in_hint": True})
+                continue
             undecided.append("verus front-end error: %s (line %s)" % (d.get("message"), pline))
             continue
         if k == "resource":
